@@ -576,13 +576,24 @@ func HoistOuterHelpers(p *core.Program) (*core.Program, bool) {
 
 // ---- expression rewrites ------------------------------------------------------------
 
+// hasNullSafe reports whether the JavaScript the generator writes for e
+// begins with a null-safe data reference that is not parenthesised: the
+// reference itself, or a function whose translation starts with its first
+// argument (length(X) -> X.length, strContains(X,y) -> X.indexOf(y) != -1,
+// isNonnull(X) -> X != null, round(X,n) -> Math.round(X * ...)).
 func hasNullSafe(e core.E) bool {
-	if e["k"] != "var" {
-		return false
-	}
-	for _, a := range asEs(e["acc"]) {
-		if a["ns"] == true {
-			return true
+	switch e["k"] {
+	case "var":
+		for _, a := range asEs(e["acc"]) {
+			if a["ns"] == true {
+				return true
+			}
+		}
+	case "fn":
+		args := asEs(e["args"])
+		switch e["name"] {
+		case "length", "strContains", "isNonnull":
+			return len(args) >= 1 && hasNullSafe(args[0])
 		}
 	}
 	return false
